@@ -83,6 +83,34 @@ let () =
       Buffer.add_string b " | qasm ";
       Buffer.add_string b (hex (string_of_chars (emit fmt s.nq s.qlog)));
       print_endline (Buffer.contents b)
+    | "tshots" :: nshots :: draws :: toks ->
+      let ds = if draws = "-" then [] else List.map float_of_string (String.split_on_char ',' draws) in
+      let n x = nat_of_int (int_of_string x) in
+      let gate g t = match g with
+        | "H" -> GH | "X" -> GX | "Y" -> GY | "Z" -> GZ
+        | "RX" -> GRx (float_of_string t) | "RY" -> GRy (float_of_string t) | "RZ" -> GRz (float_of_string t)
+        | _ -> failwith "gate" in
+      let rec go acc = function
+        | [] -> List.rev acc
+        | "D" :: k :: r -> go (TOp (EDecl (n k)) :: acc) r
+        | "G" :: g :: h :: el :: t :: r when (g = "RX" || g = "RY" || g = "RZ") -> go (TOp (EGate (gate g t, n h, n el)) :: acc) r
+        | "G" :: g :: h :: el :: r -> go (TOp (EGate (gate g "0", n h, n el)) :: acc) r
+        | "CX" :: a :: b :: c :: d :: r -> go (TOp (ECx (n a, n b, n c, n d)) :: acc) r
+        | "M" :: h :: el :: r -> go (TOp (EMeas (n h, n el)) :: acc) r
+        | "MA" :: h :: r -> go (TOp (EMeasAll (n h)) :: acc) r
+        | "R" :: h :: el :: r -> go (TOp (EReset (n h, n el)) :: acc) r
+        | "K" :: h :: r -> go (TOp (ERelease (n h)) :: acc) r
+        | "E" :: h :: key :: r -> go (TExit (n h, chars_of_string (unhex key)) :: acc) r
+        | "EF" :: h :: el :: key :: r -> go (TExitEl (n h, n el, chars_of_string (unhex key)) :: acc) r
+        | t :: _ -> failwith ("bad tshots token " ^ t) in
+      let ops = go [] toks in
+      let (ts, rest) = shots_run fops (nat_of_int (int_of_string nshots)) ops ds in
+      let agg = aggregate ts in
+      let entries = List.concat (List.map (fun (v, row) -> List.map (fun (o, c) -> (string_of_chars v, string_of_chars o, int_of_nat c)) row) agg) in
+      let entries = List.sort compare entries in
+      Printf.printf "agg %s | consumed %d\n"
+        (String.concat "," (List.map (fun (v, o, c) -> Printf.sprintf "%s|%s|%d" (hex v) (hex o) c) entries))
+        (List.length ds - List.length rest)
     | ["replay"; hq; outs] ->
       (* independent reader of the emitted text + replay on n pre-allocated qubits with the recorded outcomes *)
       (match parse_qasm (chars_of_string (unhex hq)) with
